@@ -33,6 +33,7 @@ F5b = 'a handler timeout aborts an UNRELATED event that its await loop was drain
 known('F5b', 'C10', ['C10.event_incomplete', 'C10.result_left_nonterminal', 'C10.hang'], F5b)
 known('F5b', 'C01', ['C01.missing', 'C01.hang'], F5b + ' and its remaining handlers never run', '')
 known('F5b', 'C03', ['C03.hang', 'C03.descendant_incomplete'], F5b + ', awaiting it hangs', '')
+known('F5b', 'C04', ['C04.child_incomplete_at_return', 'C04.descendant_incomplete', 'C04.hang', 'C04.released_only_by_timeout'], F5b + '; an in-handler await of it returns it incomplete', '')
 known('F5b', 'C15', ['C15.hang'], F5b + ' and stays started in history, wait_until_idle never returns', '')
 fixed('F9', 'C09', ['C09.event_bus'], '27bab07', 'event.event_bus returned the last bus of event_path, wrong for handlers that run after the event was forwarded')
 F11 = 'an in-flight (started) parent is evicted from a small history while its children outnumber max_history_size; upward completion cannot find it'
@@ -50,6 +51,8 @@ known('F14', 'C02', ['C02.inversion'], 'a run loop holds a dequeued event while 
 F15 = 'on a parallel_handlers bus two sibling handlers that both await children process those subtrees concurrently'
 known('F15', 'C06', ['C06.overlap'], F15)
 known('F15', 'C02', ['C02.serial_overlap'], F15 + ' (also on a serial bus reached from both)', '')
+for _f, _w in (('F1', F1), ('F2', F2), ('F4', F4), ('F5b', F5b), ('F11', F11)):
+    known(_f, 'C05', ['C05.unrelated_in_window'], _w + '; the await returns the child incomplete and other handlers run before the child completes', '')
 known('F15', 'C05', ['C05.unrelated_in_window'], F15 + ', so unrelated handlers start inside an await window', '')
 known('F15', 'C04', ['C04.child_incomplete_at_return', 'C04.descendant_incomplete'], F15 + '; one polling loop takes the child the other one is waiting for', '')
 
